@@ -141,7 +141,20 @@ let () =
       else if setreq && nreq <> "1" then Viol "OnRequest not called exactly once"
       else if setresp && nresp <> "1" then Viol "OnResponse not called exactly once"
       else if setreq && gotreq <> req then Viol "OnRequest does not receive exactly the request bytes"
-      else if setresp && (match head_of resp with Some h -> hex_of_bytes h <> gotresp | None -> false)
+      else if setresp && (match head_of resp with
+          | Some h ->
+            (* a refused handshake may carry a body: with a Content-Length it belongs to "the response bytes" *)
+            let hs = String.lowercase_ascii (String.concat "" (List.map (fun b -> String.make 1 (Char.chr (int_of_n b))) h)) in
+            let lines = String.split_on_char '\n' hs in
+            let status = (match lines with l :: _ -> (match String.split_on_char ' ' (String.trim l) with _ :: st :: _ -> st | _ -> "") | [] -> "") in
+            let cl = List.fold_left (fun acc l ->
+              let l = String.trim l in
+              if String.length l > 15 && String.sub l 0 15 = "content-length:" then
+                (try Some (int_of_string (String.trim (String.sub l 15 (String.length l - 15)))) with _ -> acc)
+              else acc) None lines in
+            let body_len = (match cl with Some n when status <> "101" && n >= 0 -> min n (List.length resp - List.length h) | _ -> 0) in
+            hex_of_bytes (take_n (List.length h + body_len) resp) <> gotresp
+          | None -> false)
       then Viol "OnResponse does not receive exactly the response bytes"
       else Pass true
     | _ -> Diff "malformed line")
